@@ -67,10 +67,15 @@ type edgeFilterFn func(pred, succ *ssa.BasicBlock, ev uint64) bool
 type edgeTransferFn func(pred *ssa.BasicBlock, succIdx int, ev uint64) uint64
 
 type pathAnalysis struct {
-	fn        *ssa.Function
-	transfer  transferFn
-	edge      edgeFilterFn
-	edgeTr    edgeTransferFn
+	fn       *ssa.Function
+	transfer transferFn
+	edge     edgeFilterFn
+	edgeTr   edgeTransferFn
+	// condTr (optional) is told that a non-constant condition `cond` is known
+	// to have had the value `outcome` when a branch on a boolean variable that
+	// merely holds cond's value (x := a && (b || cond); if x {...}) is taken.
+	condTr    func(cond ssa.Value, outcome bool, ev uint64) uint64
+	leafOf    map[*ssa.Phi]ssa.Value // tracked phi -> its single non-constant source, if any
 	tracked   []*ssa.Phi
 	trackIdx  map[ssa.Value]int
 	deferIdx  map[*ssa.Defer]int
@@ -99,6 +104,14 @@ func newPathAnalysis(fn *ssa.Function, tr transferFn) *pathAnalysis {
 			}
 		}
 	})
+	// a tracked phi merges constants, other tracked phis and at most one
+	// non-constant condition (its "leaf"): the shape of && / || chains
+	// assigned to a variable. State 3 of a tracked phi means "has the value
+	// of its leaf".
+	leaves := map[*ssa.Phi]map[ssa.Value]bool{}
+	for ph := range cand {
+		leaves[ph] = map[ssa.Value]bool{}
+	}
 	for changed := true; changed; {
 		changed = false
 		for ph := range cand {
@@ -106,13 +119,35 @@ func newPathAnalysis(fn *ssa.Function, tr transferFn) *pathAnalysis {
 				if _, ok := constBool(e); ok {
 					continue
 				}
-				if p2, ok := e.(*ssa.Phi); ok && cand[p2] {
+				if p2, ok := e.(*ssa.Phi); ok && isBoolType(p2) {
+					if !cand[p2] {
+						delete(cand, ph)
+						changed = true
+						break
+					}
+					for l := range leaves[p2] {
+						if !leaves[ph][l] {
+							leaves[ph][l] = true
+							changed = true
+						}
+					}
 					continue
 				}
+				if !leaves[ph][e] {
+					leaves[ph][e] = true
+					changed = true
+				}
+			}
+			if cand[ph] && len(leaves[ph]) > 1 {
 				delete(cand, ph)
 				changed = true
-				break
 			}
+		}
+	}
+	pa.leafOf = map[*ssa.Phi]ssa.Value{}
+	for ph := range cand {
+		for l := range leaves[ph] {
+			pa.leafOf[ph] = l
 		}
 	}
 	for ph := range cand {
@@ -145,7 +180,8 @@ func (pa *pathAnalysis) setBool(t tuple, i int, val uint64) tuple {
 	return t
 }
 
-// evalBool evaluates a condition under a tuple: 0 unknown, 1 false, 2 true.
+// evalBool evaluates a condition under a tuple: 0 unknown, 1 false, 2 true,
+// 3 "has the value of the leaf condition of the tracked phi v".
 func (pa *pathAnalysis) evalBool(v ssa.Value, t tuple) uint64 {
 	if b, ok := constBool(v); ok {
 		if b {
@@ -165,6 +201,14 @@ func (pa *pathAnalysis) evalBool(v ssa.Value, t tuple) uint64 {
 		}
 	}
 	return 0
+}
+
+// evalEdge evaluates the operand e that flows into tracked phi ph.
+func (pa *pathAnalysis) evalEdge(ph *ssa.Phi, e ssa.Value, t tuple) uint64 {
+	if l, ok := pa.leafOf[ph]; ok && e == l {
+		return 3
+	}
+	return pa.evalBool(e, t)
 }
 
 // step runs the instructions of block b on one tuple and returns the tuples
@@ -251,7 +295,7 @@ func (pa *pathAnalysis) flow(pred, succ *ssa.BasicBlock, succIdx int, t tuple) (
 			if succIdx == 1 {
 				return t, false
 			}
-		case 0:
+		case 0, 3:
 			// learn the value of a tracked condition from the edge taken
 			cond := iff.Cond
 			neg := false
@@ -266,6 +310,13 @@ func (pa *pathAnalysis) flow(pred, succ *ssa.BasicBlock, succIdx int, t tuple) (
 				val := succIdx == 0
 				if neg {
 					val = !val
+				}
+				if pa.getBool(t, i) == 3 && pa.condTr != nil {
+					// the variable holds its leaf condition's value: that
+					// condition had this outcome
+					if ph, ok := cond.(*ssa.Phi); ok {
+						t.ev = pa.condTr(pa.leafOf[ph], val, t.ev)
+					}
 				}
 				if val {
 					t = pa.setBool(t, i, 2)
@@ -291,6 +342,15 @@ func (pa *pathAnalysis) flow(pred, succ *ssa.BasicBlock, succIdx int, t tuple) (
 			break
 		}
 	}
+	if succ.Dominates(pred) {
+		// back edge: a leaf condition is recomputed in the next iteration, a
+		// variable that held its old value no longer "has the leaf's value"
+		for i := range pa.tracked {
+			if pa.getBool(t, i) == 3 {
+				t = pa.setBool(t, i, 0)
+			}
+		}
+	}
 	if predIdx >= 0 {
 		old := t
 		for _, in := range succ.Instrs {
@@ -299,7 +359,7 @@ func (pa *pathAnalysis) flow(pred, succ *ssa.BasicBlock, succIdx int, t tuple) (
 				break
 			}
 			if i, ok := pa.trackIdx[ph]; ok {
-				t = pa.setBool(t, i, pa.evalBool(ph.Edges[predIdx], old))
+				t = pa.setBool(t, i, pa.evalEdge(ph, ph.Edges[predIdx], old))
 			}
 		}
 	}
